@@ -39,10 +39,18 @@ of line terminators - it need not be UTF-8 or text at all.  Non-ASCII white spac
 Every printable non-space ASCII character ('#' of PanSN names, ':', '|', '=', quotes, brackets ..) may occur
 anywhere in a name, and none of the clauses depends on how a record is called: quintuple, random access,
 tiling and streaming back hold for such files exactly as for `>s1`, on the first (cold) load *and* on the
-load that finds the .fai/.agp pair written by the first one (warm).  Two classes of names are kept off the
-cold-then-warm route because the unchanged tree fails there (reported, not yet in known_findings.json):
-names that start with '#' and names containing non-ASCII white space or 0x1C-0x1F; they are still indexed
-directly.
+load that finds the .fai/.agp pair written by the first one (warm).  (Names containing non-ASCII white space
+or 0x1C-0x1F could not be loaded warm on the pinned tree - load_index cut the .fai line at them - repaired in
+/repo.)
+
+Known finding "c04-record-name-hash" (recorded in /verif/known_findings.json, not repaired): a record whose name
+STARTS with '#' is written to the .agp cache as a line that the AGP reader takes for a comment, so the assembly
+loaded warm lacks the scaffold of that record (and streaming it back omits the record).  A failure carries that
+class only if the file has such a record (with residues) and what is wrong is exactly that: the scaffolds of the
+warm assembly / the records streamed back from it are the file's records without the '#'-named ones, in order,
+each of the remaining ones correct.  Everything else observed on such a file (cold load, index rows, .fai, random
+access, tilings of the other records, any other set or order of scaffolds) is judged as usual and unclassified,
+and an unclassified failure of a file is reported in preference to a classified one.
 """
 
 import io
@@ -61,6 +69,30 @@ from . import fasta_gen as G
 from .common import Collector
 
 SMALL = 14  # records up to this length get every interval fetched
+KNOWN_HASH = "c04-record-name-hash"
+MAX_KNOWN = 4  # failures of a known class kept in the failure list
+
+
+class Msg(str):
+    """a failure message that belongs to a known class"""
+
+    classes = ()
+
+
+def known_hash(text):
+    m = Msg(text)
+    m.classes = (KNOWN_HASH,)
+    return m
+
+
+def hash_lost(case):
+    """names of the records the known finding loses on the warm load: name starts with '#', record has residues"""
+    return [r.name for r in case.records if r.name.startswith("#") and r.seq]
+
+
+def pick(msgs):
+    """the message to report for a file: the first unclassified one, else the first"""
+    return next((m for m in msgs if not getattr(m, "classes", ())), msgs[0])
 
 # ----------------------------------------------------------------------------------------------------------
 # header-line variety (names, separators, descriptions) - all from the reading of the statement given above
@@ -91,7 +123,7 @@ REAL_NAMES = (
 )  # fmt: skip
 UTF8_NAMES = ("\u00e01", "\u00c5x", "\u2026", "ctg_\u00e9", "\u67d3\u8272\u4f531", "\u03a9mega", "x\u0300", "a\x00b", "c\x7fd", "e\x01f", "g\x1bh")
 # non-ASCII white space and C0 separators inside a name (part of the name: not ASCII white space); in pairs that
-# differ only behind that character
+# differ only behind that character (str.split() would cut them: the .fai / .agp readers must not)
 SPACED_NAMES = tuple(f"chr{c}{k}" for c in "\u00a0\u2003\u0085\x1c\x1d\x1e\x1f\u3000\u2028\u1680\u2009\u205f" for k in (1, 2))
 HASH_FIRST_NAMES = ("#x", "#1#a", "##", "#")
 UTF8_IO = locale.getpreferredencoding(False).lower().replace("-", "").replace("_", "") == "utf8"
@@ -99,11 +131,10 @@ UTF8_IO = locale.getpreferredencoding(False).lower().replace("-", "").replace("_
 
 def cacheable(name):
     """
-    may this name go through the cold-then-warm route?  Not when it starts with '#' or contains a character
-    that str.split() takes for white space (both fail on the unchanged tree: reported); non-ASCII names only
-    where the cache files are written as UTF-8
+    may this name go through the cold-then-warm route?  Non-ASCII names only where the cache files are written
+    as UTF-8; names starting with '#' go there in files of their own (known finding, see hash_files)
     """
-    if name.startswith("#") or any(ch.isspace() for ch in name):
+    if name.startswith("#"):
         return False
     return UTF8_IO or name.isascii()
 
@@ -120,20 +151,17 @@ def header_note(case):
 
 
 def header_names(quick):
-    """names for the header family -> (cacheable names, names only indexed directly)"""
+    """names for the header family -> (cacheable names, names only indexed directly, names starting with '#')"""
     names = list(REAL_NAMES) + list(UTF8_NAMES)
     for c in PRINTABLE:
         names.append(f"a{c}b")
         if not quick or not c.isalnum():
             names += [f"a{c}", f"{c}a", c, c + c, f"{c}1{c}"]
-    direct = list(SPACED_NAMES) + list(HASH_FIRST_NAMES)
-    seen, warm = set(), []
-    for nm in names:
-        if nm in seen:
-            continue
-        seen.add(nm)
-        (warm if cacheable(nm) else direct).append(nm)
-    return warm, list(dict.fromkeys(direct))
+    names += list(SPACED_NAMES) + list(HASH_FIRST_NAMES)
+    warm, direct, hashed = [], [], []
+    for nm in dict.fromkeys(names):
+        (hashed if nm.startswith("#") else warm if cacheable(nm) else direct).append(nm)
+    return warm, direct, hashed
 
 
 class Case(G.FastaCase):
@@ -206,8 +234,14 @@ def check_index(case, layout, idx, asm, what, reloaded=False):
     sc_names = [s.name for s in asm.scaffolds]
     records, scaffolds = case.records, asm.scaffolds
     if sc_names != want_names:
-        msgs.append(f"{what}: assembly scaffolds {sc_names} != record names {want_names}")
-        return msgs
+        text = f"{what}: assembly scaffolds {sc_names} != record names {want_names}"
+        lost = hash_lost(case)
+        if not (reloaded and lost and sc_names == [n for n in want_names if n not in lost]):
+            msgs.append(text)
+            return msgs
+        # exactly the records whose name starts with '#' are missing: the known finding; the others are judged
+        msgs.append(known_hash(text + " (the scaffolds of the records whose name starts with '#' are missing after the .agp cache was read back)"))
+        records = [r for r in records if r.name not in lost]
     for r, sc in zip(records, scaffolds):
         want = [("G", t[1]) if t[0] == "G" else ("F", r.name, t[1], t[2], 1) for t in G.tiling(r.seq)]
         got = rows_of(sc)
@@ -224,7 +258,16 @@ def check_stream_back(case, fi, asm, line_length, what, reloaded=False):
         return [f"{what}: streaming the derived assembly raised {e!r}"]
     # parse_written_fasta reads header bytes as latin-1: compare the bytes of the names
     want = [(r.name.encode().decode("latin-1"), G.masked(r.seq)) for r in case.records]
-    return [f"{what}: streamed back, {m}" for m in G.compare_written_fasta(out.getvalue(), want, line_length)]
+    msgs = [f"{what}: streamed back, {m}" for m in G.compare_written_fasta(out.getvalue(), want, line_length)]
+    lost = hash_lost(case)
+    if msgs and reloaded and lost:
+        kept = [(r.name.encode().decode("latin-1"), G.masked(r.seq)) for r in case.records if r.name not in lost]
+        got_names = [h for h, _ in G.parse_written_fasta(out.getvalue())[0]]
+        if got_names == [n for n, _ in kept]:
+            # exactly the '#'-named records are omitted (known finding); the records written are judged
+            rest = [f"{what}: streamed back, {m}" for m in G.compare_written_fasta(out.getvalue(), kept, line_length)]
+            return [known_hash(msgs[0] + " (exactly the records whose name starts with '#' are omitted)")] + rest
+    return msgs
 
 
 def check_random_access(case, fi, what):
@@ -354,7 +397,7 @@ def replay(inp):
             msgs = check_cache_and_access(case, layout, path)
         else:
             msgs = check_case_buffer(case, layout, path, inp["buffer"], line_lengths=(60, case.width))
-        return msgs[0] + header_note(case) if msgs else None
+        return pick(msgs) + header_note(case) if msgs else None
 
 
 def nontrivial(case):
@@ -376,7 +419,11 @@ def run_case(case, col, path, buffers, sample=False, cache=True, first_only=Fals
         if cache:
             msgs = check_cache_and_access(case, layout, path)
             if msgs and not (first_only and spec):
-                col.fail(msgs[0] + header_note(case), {"kind": "cache", "case": case.spec()})
+                m = pick(msgs)
+                classes = getattr(m, "classes", ())
+                # a known class is recorded a few times only: it must not crowd other failures out of the list
+                if not classes or sum(1 for f in col.failures if f["classes"]) < MAX_KNOWN:
+                    col.fail(m + header_note(case), {"kind": "cache", "case": case.spec()}, classes=classes)
             col.case((key, "cache"), nontrivial=nt)
     finally:
         G.remove_with_caches(path)
@@ -397,7 +444,7 @@ def run(tier, seed, **opts):
         "the next header or by end of file, terminated or not) and random files with such records; "
         "files whose header lines vary as bytes (names with every printable non-space ASCII character in the middle / at "
         "the end / at the start, PanSN and other '#', '|', ':' names, UTF-8 and control-byte names, names with "
-        "non-ASCII white space [indexed directly only]; every ASCII white-space separator; descriptions holding every "
+        "non-ASCII white space or 0x1C-0x1F, names starting with '#'; every ASCII white-space separator; descriptions holding every "
         "byte value but CR/LF), each with a cold-then-warm load through the .fai/.agp cache; "
         "one evaluation = one (file, buffer) or (file, cache round trip); non-trivial = distinct (file, buffer) "
         "whose file has a record of more than one line, more than one run, or no residues"
@@ -483,7 +530,7 @@ def run(tier, seed, **opts):
         #       (every byte value but CR / LF; not UTF-8) - behind plain names
         #    c. both together
         #    with a cold-then-warm load of every such file whose names the cache route is known to carry
-        warm_names, direct_names = header_names(quick)
+        warm_names, direct_names, hash_names = header_names(quick)
         seqs6 = [b"acNGt", b"NtGACGTAcgtnnAC", b"ACGTACGTAC", b"", b"NNN", b"nACGTACGTACg"]
         lays6 = list(G.layouts((1, 3, 60) if quick else (1, 2, 3, 4, 5, 60)))
         ascii_descs = [*G.DESCRIPTIONS, b"\x0bd", b"\x0cd e", b"  two blanks", b" \t"]
@@ -505,7 +552,7 @@ def run(tier, seed, **opts):
                 run_case(case, col, path, [1, 2, 3, 250_000] if k % 2 else [1, 4, 250_000], sample=sample, cache=cache, first_only=True)
 
         # a. names that differ only behind a special character share a file (a cut name collides or mismatches)
-        for names, cache in ((warm_names, True), (direct_names, False)):
+        for names, cache in ((warm_names, True), (direct_names + hash_names, False)):
             crowded = allowance(4)
             for i in range(0, len(names), 3):
                 if crowded():
@@ -520,6 +567,23 @@ def run(tier, seed, **opts):
             w, eol, fin = lays6[k % len(lays6)]
             recs = [G.Rec(f"s{i + 1}", seqs6[(k + i) % len(seqs6)], d) for i, d in enumerate(descs6[j : j + 2])]
             run_case(Case(recs, w, eol, fin), col, path, [1, 2, 5, 250_000], sample=j == 0, cache=True, first_only=True)
+        # d. records whose name starts with '#', cold-then-warm (known finding c04-record-name-hash: the only
+        #    failures expected here are of that class); records with residues, alone and first / middle / last
+        #    among other records
+        limit_d = sum(1 for f in col.failures if not f["classes"]) + 4
+        crowded = lambda: col.full or sum(1 for f in col.failures if not f["classes"]) >= limit_d  # noqa: E731
+        full6 = [sq for sq in seqs6 if sq]
+        groups = [["#x", "y"], ["a", "#1#a", "b#"], ["##"], ["#", "#a"], ["s1", "s2", "#HG002#1#c"]]
+        if not quick:
+            groups += [[h] for h in hash_names] + [["p", h] for h in hash_names] + [["p#1", h, "p#2"] for h in hash_names]
+            groups += [[h, "q"] for h in hash_names] + [hash_names[i : i + 3] for i in range(0, len(hash_names), 3)]
+        for gi, names in enumerate(groups):
+            for w, eol, fin in lays6 if not quick and gi < 5 else [lays6[(k + 1) % len(lays6)]]:
+                if crowded():
+                    break
+                k += 1
+                recs = [G.Rec(nm, full6[(k + i) % len(full6)], ascii_descs[(k + i) % len(ascii_descs)]) for i, nm in enumerate(names)]
+                run_case(Case(recs, w, eol, fin), col, path, [1, 3, 250_000], cache=True, first_only=True)
         # c. together
         crowded = allowance(3)
         pansn = [nm for nm in warm_names if "#" in nm or "|" in nm or ":" in nm or not nm.isascii()]
@@ -545,10 +609,11 @@ def run(tier, seed, **opts):
                 if crowded():
                     break
                 header_file(special[i : i + 3], ascii_descs + descs6, all(cacheable(nm) for nm in special[i : i + 3]), lays=lays6)
-            for i in range(0, len(direct_names), 2):
+            spaced = [nm for nm in SPACED_NAMES if cacheable(nm)]
+            for i in range(0, len(spaced), 2):
                 if crowded():
                     break
-                header_file(direct_names[i : i + 2], ascii_descs, False, lays=lays6[::5])
+                header_file(spaced[i : i + 2], ascii_descs + descs6, True, lays=lays6[::5])
             # random headers: names over printable ASCII with a bias to '#', '|', ':', descriptions of random bytes
             crowded = allowance(3)
             alphabet = PRINTABLE + list("#|:#|:._-") + list("abcXYZ019") * 3
@@ -629,6 +694,7 @@ def run(tier, seed, **opts):
             f"(exhaustive part) or 1,2,primes,width+-1,run/record length+-1,250000 (random part); every placement of empty "
             f"records among 1-3 records x layouts and {n_empty_random} random files with empty records; {n_header_files} files with "
             f"byte-level header variety ({len(warm_names)} names cold-then-warm, {len(direct_names)} indexed directly, "
+            f"{len(hash_names)} names starting with '#' cold-then-warm in files of their own [known class {KNOWN_HASH}], "
             f"{len(descs6)} separator+description byte strings); {len(rejected)} malformed files "
             "(no records; duplicate names incl. copies without residues and names with special characters)"
         ),
